@@ -6,6 +6,7 @@
 //	                                      permuted by the hook SimMapPerm (nil: sorted order)
 //	T2  x.Lock()/x.Unlock() on sync.Mutex -> simLock(x)/simUnlock(x): hook, then the real call
 //	T3  go f(a, b)                      -> args evaluated now, simGo(func(){ f(a', b') })
+//	T4  ch <- v                         -> simSend(ch, v, site): a scheduling point, then the real send
 //
 // Usage: instr -moddir <harness module dir> -out <dir> [-t1 pkg,...] [-t23 pkg,...]
 // Fails closed (exit 2) on anything it cannot handle.
@@ -215,7 +216,7 @@ func main() {
 	for _, r := range report {
 		cnt[r.Kind]++
 	}
-	fmt.Printf("instr: %d files rewritten; T1=%d T2=%d T3=%d uncontrolled=%d\n", len(overlay), cnt["T1"], cnt["T2"], cnt["T3"], len(uncontrolled))
+	fmt.Printf("instr: %d files rewritten; T1=%d T2=%d T3=%d T4=%d uncontrolled=%d\n", len(overlay), cnt["T1"], cnt["T2"], cnt["T3"], cnt["T4"], len(uncontrolled))
 }
 
 func relName(ip, full string) string {
@@ -328,7 +329,13 @@ func (r *rewriter) stmt(s ast.Stmt) ast.Stmt {
 			s.Body[i] = r.stmt(st)
 		}
 	case *ast.CommClause:
-		if s.Comm != nil {
+		// the communication of a select case is left as it is (only its operands are walked)
+		switch c := s.Comm.(type) {
+		case *ast.SendStmt:
+			r.exprs(c.Chan)
+			r.exprs(c.Value)
+		case nil:
+		default:
 			s.Comm = r.stmt(s.Comm)
 		}
 		for i, st := range s.Body {
@@ -359,6 +366,9 @@ func (r *rewriter) stmt(s ast.Stmt) ast.Stmt {
 	case *ast.SendStmt:
 		r.exprs(s.Chan)
 		r.exprs(s.Value)
+		if r.level >= 3 {
+			return r.sendStmt(s)
+		}
 	case *ast.IncDecStmt:
 		r.exprs(s.X)
 	case *ast.DeclStmt:
@@ -451,6 +461,19 @@ func (r *rewriter) mutexCall(c *ast.CallExpr) {
 	c.Args = []ast.Expr{arg, &ast.BasicLit{Kind: token.STRING, Value: fmt.Sprintf("%q", site)}}
 	r.changed = true
 	report = append(report, siteReport{Kind: "T2", Site: site, Note: full})
+}
+
+// sendStmt (T4): ch <- v  ->  simSend(ch, v, site): a scheduling point before the send, then the real send.
+func (r *rewriter) sendStmt(s *ast.SendStmt) ast.Stmt {
+	tv := r.info.Types[s.Value]
+	if tv.Value != nil || tv.IsNil() {
+		return s // untyped constant / nil operand: leave the statement alone (reported as uncontrolled)
+	}
+	site := r.site("T4", s.Pos())
+	r.changed = true
+	report = append(report, siteReport{Kind: "T4", Site: site})
+	return &ast.ExprStmt{X: &ast.CallExpr{Fun: ast.NewIdent("simSend"),
+		Args: []ast.Expr{s.Chan, s.Value, &ast.BasicLit{Kind: token.STRING, Value: fmt.Sprintf("%q", site)}}}}
 }
 
 func (r *rewriter) goStmt(s *ast.GoStmt) ast.Stmt {
@@ -735,6 +758,16 @@ func simUnlock(m *sync.Mutex, site string) {
 	if SimAfterUnlock != nil {
 		SimAfterUnlock(m, site)
 	}
+}
+
+// SimBeforeSend is called before a channel send of the library; it may park the caller.
+var SimBeforeSend func(site string)
+
+func simSend[T any](ch chan<- T, v T, site string) {
+	if SimBeforeSend != nil {
+		SimBeforeSend(site)
+	}
+	ch <- v
 }
 
 func simGo(fn func(), site string) {
